@@ -42,7 +42,7 @@ class C03(PropCheck):
                 spec = gen_spec(r)
             names = [s['name'] for s in spec]
             if not abc and attach is None and r.random() < 0.18:
-                mal = r.choice(['cycle', 'both', 'clash', 'stoch_obs', 'stoch_twin'])
+                mal = r.choice(['cycle', 'both', 'clash', 'stoch_obs', 'stoch_twin', 'dup_parent'])
             outs_mode = r.choice(['all', 'some', 'some', 'one', 'twin'])
             if outs_mode == 'all':
                 outputs = None
@@ -136,6 +136,11 @@ class C03(PropCheck):
             sm = elfi.Summary(rec_op(rec, 'ss'), sim, name='ss', model=m)
             elfi.Discrepancy(rec_op(rec, 'dd'), sm, name='dd', model=m)
             extra += [('uu', 'ss', 0), ('ss', 'dd', 0)]
+        elif mal == 'dup_parent':
+            # one node twice among the positional parents of an Operation: f(p, p, q) as declared
+            p0, q0 = names[0], names[-1]
+            elfi.Operation(rec_op(rec, 'dp'), refs[p0], refs[p0], refs[q0], name='dp', model=m)
+            extra += [(p0, 'dp', 0), (p0, 'dp', 1), (q0, 'dp', 2)]
         # what was declared: constructor argument positions, explicit add_edge parameters, named parameters
         self._declared = declared_edges(spec, attach or (), extra)
         return m
@@ -175,6 +180,13 @@ class C03(PropCheck):
         return json.dumps([case['spec'], case.get('attach'), case['outputs'], case['with_values'], case['malformed']], sort_keys=True)
 
     def classify(self, case, out, clause):
+        # a node listed twice among the positional parents of one constructor call, and the source net does not carry
+        # the declared edges: the recorded finding (any other failure of such a case is reported)
+        decl = [tuple(e) for e in out.get('declared', [])]
+        twice = any(sum(1 for e in decl if e[0] == d[0] and e[1] == d[1]) > 1 for d in decl)
+        if twice and clause in ('Declared.dok', 'Declared.dok_strict') and \
+                sorted(map(repr, map(tuple, out.get('net_edges', [])))) != sorted(map(repr, decl)):
+            return 'repeated-positional-parent'
         if clause == 'Declared.dok_strict':
             return 'unobserved-stochastic-observable-twin'
         return None
